@@ -130,7 +130,7 @@ def T(technique, level_text, note=""):
 
 
 MANIFEST_TEXT = {
-    "C01": T("deterministic simulation with fault injection: seeded request/attacker/clock histories + systematic single and pair fault sweep over every store, token-endpoint and key-source call, crash-restart at seam calls; ledger-based justification oracle",
+    "C01": T("deterministic simulation with fault injection: seeded request/attacker/clock histories + systematic single and pair fault sweep over every store, token-endpoint and key-source call (for Redis also every command position inside a store call: torn writes), Envoy giving up (request context cancelled), crash-restart at seam calls, 1-3 replicas sharing Redis; ledger-based justification oracle",
              "Every OK verdict of every simulated run must be justified by ground truth: a session under the presented cookie whose ID token the provider's ledger issued and which is unexpired, or a "
              "successful refresh exchange caused by this very check; any injected failure inside a check forbids OK. fault_enumeration: besides random faults, a scenario through every seam is recorded and "
              "re-run once per seam call x fault kind (before/after effect) and for sampled pairs (all recorded singles; 40/400 pairs per scenario in quick/thorough).",
@@ -153,7 +153,7 @@ MANIFEST_TEXT = {
              "every candidate instant must not reproduce the victim's identifiers. Exploration; claimed in part.",
              "The static clause of the property (every code path in the shipped sources, call graph to an entropy source) is NOT decided: it is a static-analysis question outside this technique. "
              "A generator with a hidden but small seed space is not detectable black-box."),
-    "C09": T("deterministic simulation with a seeded scheduler (uniform and priority policies): logout raced against 1-2 checks on the same session at store-call and token-endpoint granularity; fault injection on session removal",
+    "C09": T("deterministic simulation with a seeded scheduler (uniform and priority policies): logout raced against 1-2 checks on the same session at store-call and token-endpoint granularity; fault injection on session removal; requests spread over 1-3 replicas sharing Redis",
              "Verdicts are ordered against the completion of the logout response by global event sequence numbers; any check invoked after it, and any in-flight refresh finishing after it, must not be OK; "
              "a failed removal must yield an error answer. Exploration over schedules; determinism self-test (GOMAXPROCS 1/4/16)."),
     "C10": T("deterministic simulation on a fake clock: store-level histories against a timeout model (memory store, two Redis store instances on miniredis) and system-level probes through the start-up wiring, crash-restart with Redis",
@@ -162,7 +162,7 @@ MANIFEST_TEXT = {
     "C11": T("deterministic simulation over many token lifetimes against a provider with a refresh-token ledger (rotation, omitted members, key rollover, denial, forged answers, lost replies)",
              "Every refresh exchange is checked against the ledger (most recently issued refresh token, well-formed grant, credentials); a successful exchange must yield OK with the merged result in headers and store, "
              "a failed one must end the session and send the browser to login. Key rollover windows in which both outcomes are legitimate are not judged. Exploration."),
-    "C12": T("deterministic simulation: sequential refinement of memory and Redis stores against a plain-map model with Redis command faults and crashes between commands; concurrent memory-store histories checked for linearizability (porcupine)",
+    "C12": T("deterministic simulation: sequential refinement of memory and Redis stores against a plain-map model with Redis command faults and crashes between commands (a MULTI/EXEC transaction is one command); concurrent memory-store histories, with and without session timeouts configured on an aged store, checked for linearizability (porcupine); a runtime-fatal error of the worker is a verdict",
              "Return values and complete ground-truth store content are compared with the model after every operation; interrupted Redis methods are judged with a narrow prefix-of-writes relaxation; "
              "concurrent histories (statement-level pre-emption, also inside critical sections) must be linearizable. Exploration; porcupine Unknown is counted inconclusive, never reported."),
     "C13": T("deterministic simulation: the redirect is the message to the next node; strict provider-side parser with an independent splitter/decoder judges every Location; byte-for-byte return URL",
@@ -173,17 +173,17 @@ MANIFEST_TEXT = {
     "C15": T("deterministic simulation with malformed-peer fault kinds: hostile CheckRequests, token-endpoint/JWKS/discovery bodies from a JSON grammar, claims of unexpected type, lying and corrupted store; recover() oracle",
              "A panic anywhere under Check is the violation (no recovery interceptor exists in the service); verdicts must be well-formed. Exploration over an enumerated grammar (each production indexed by the plan index).",
              "Coverage-guided mutation is a different technique and is not used; requests enter through ExtAuthZFilter.Check, not through the gRPC server. A panic in a background goroutine of a dependency would surface as a worker crash (exit 2), not as a replayable violation."),
-    "C16": T("deterministic simulation in a -race build: ThreadSanitizer under a seeded, serial, TSan-transparent (sleep-based) schedule with statement-level yields and simulator mutexes; completion/deadlock oracle",
+    "C16": T("deterministic simulation in a -race build: ThreadSanitizer under a seeded, serial, TSan-transparent (sleep-based) schedule with statement-level yields and simulator mutexes; completion/deadlock oracle (simulator-mutex step budget; out-of-bubble watch for checks stuck on a service lock); runtime-fatal errors are verdicts",
              "4-12 concurrent tasks of every request kind plus Secret reconcile, CA-file rewrite and TLS-config load; race reports are canonicalised to the pair of innermost authservice functions; a planted-race positive control and "
              "a locked negative control run at the start of every worker. Exploration over schedules.",
              "TSan keeps a bounded access history; the token-endpoint model uses a mutex, which can order some accesses of different tasks (schedule-dependent, mitigated by exploring many schedules). JWKS background refresh is not overlapped with checks."),
-    "C18": T("deterministic simulation: 2-3 filters over four store topologies; sessions of one filter presented to the others; per-filter limit probes on the fake clock",
+    "C18": T("deterministic simulation: 2-3 filters over seven store topologies (one with a Redis server unreachable while the service starts); sessions of one filter presented to the others; concurrent logins at all filters; per-filter limit probes on the fake clock",
              "OK verdicts are attributed to the filter whose redirect issued the session; forwarded tokens must verify under the judging filter's keys and audience; token requests must reach the judging filter's provider with its credentials; "
              "each filter's own limits are probed 2 s before/after. Exploration."),
-    "C19": T("deterministic simulation: the simulator plays the Kubernetes API server (fake client) and manager, delivering reconciles with duplication, delay and reordering, interleaved with logins and refreshes",
+    "C19": T("deterministic simulation: the simulator plays the Kubernetes API server (fake client whose reads can fail) and manager (re-queues a reconcile that returned an error), delivering reconciles with duplication, delay and reordering, interleaved with logins and refreshes, and racing a rotation against a callback in flight under the seeded scheduler",
              "Reference map secret name -> last non-empty value at a completed reconcile; judged at the token endpoint (both grant types) and on every filter's configuration after each reconcile; cross-namespace references must be refused at start-up. Exploration.",
              "The namespace and client are injected through an export shim instead of PreRun's in-cluster discovery; loadSecrets and Reconcile are the real code."),
-    "C20": T("deterministic simulation: real TLS handshakes over in-memory connections against a test PKI, real TLS pool + file watcher on the fake clock, CA-file rewrite/torn/delete faults, concurrent first loads in the instrumented build",
+    "C20": T("deterministic simulation: real TLS handshakes over in-memory connections against a test PKI, real TLS pool + file watcher on the fake clock, CA-file rewrite/torn/delete faults incl. an outage of several polls followed by a rotation, concurrent first loads in the instrumented build",
              "Independent expectation from crypto/x509 and the file content as of the last poll; probes between a rewrite and the next poll, or at a poll instant, are not judged; superseded watchers must stop; identical settings must share one configuration. Exploration."),
 }
 
